@@ -45,6 +45,50 @@ def gen_loop_program(rr):
     return prog
 
 
+def span_of(loop):
+    return 1 if loop['template'] == 'mid-offset' else 0
+
+
+def add_second_loop(rr, prog):
+    """a second, independent DoWhile document in the same workflow: either its components carry a suffix (it may then share
+    stages with the first loop) or they have the *same names* in other stages (names are unique per stage only). The two
+    loops are iterated in a seeded interleaving"""
+    second = gen_loop_program(rr)
+    for key in ('reloads', 'uservars', 'kind'):
+        second.pop(key, None)
+    second['k'] = rr.choice([1, 2, 3, 10, 11, 12])
+    second['name'] = prog['name'] + '2'
+    second['suffix'] = rr.choice(['', '', 'B'])
+    second['file'] = 'dowhile2.yaml'
+    if second['suffix']:
+        second['import_stage'] = rr.choice([0, 1, 2, prog['import_stage']])
+    else:
+        second['import_stage'] = prog['import_stage'] + span_of(prog) + rr.choice([1, 1, 2])
+    if not second['suffix'] and rr.random() < 0.4:
+        # the same document imported twice
+        for key in ('template', 'method', 'repl', 'const_binding', 'nodeps', 'carried_from'):
+            second[key] = prog[key]
+        second['file'] = 'dowhile.yaml'
+        targets = {'chain': ['work', 'stop'], 'mid': ['work', 'mid', 'stop'], 'replicated': ['agg', 'stop'],
+                   'mid-offset': ['work', 'mid', 'stop']}[second['template']]
+        for o in second['outside']:
+            if o['target'] not in targets:
+                o['target'] = rr.choice(targets)
+    for o in second['outside']:
+        o['name'] = 'two' + o['name']
+    prog['second'] = second
+    order = [0] * prog['k'] + [1] * second['k']
+    rr.shuffle(order)
+    prog['order'] = order
+    nrel = rr.choice([0, 1, 2])
+    prog['reloads'] = sorted(rr.sample(range(0, len(order) + 1), min(nrel, len(order) + 1)))  # positions in 'order'
+    return prog
+
+
+def loops_of(prog):
+    return [prog] + ([prog['second']] if prog.get('second') else [])
+
+
 def body_components(prog):
     """(name, relative stage, refs [(producer, is_binding)], replicate, aggregate) of the loop body"""
     t = prog['template']
@@ -64,17 +108,31 @@ def body_components(prog):
                 ('stop', 0, [('agg', False)], None, False)]
     if prog['nodeps']:
         body.append(('free', 0, [], None, False))
+    sfx = prog.get('suffix') or ''
+    if sfx:
+        def ren(p, is_b):
+            if is_b:
+                return p
+            return p + sfx
+        body = [(n + sfx, st, [(ren(p, b), b) for (p, b) in refs], r, a) for (n, st, refs, r, a) in body]
     return body
 
 
-def render_loop(prog):
+def bn(loop, name):
+    """name of a body component of this loop"""
+    return name + (loop.get('suffix') or '')
+
+
+def render_dw(prog):
     m = prog['method']
-    S = prog['import_stage']
+    sfx = prog.get('suffix') or ''
     lines = ['type: DoWhile', 'inputBindings:', '  val:', '    type: %s' % m]
     if prog['const_binding']:
         lines += ['  const:', '    type: ref']
-    lines += ['loopBindings:', '  val: %s:%s' % (prog['carried_from'] if prog['template'] != 'mid-offset' else 'stage1.mid', m),
-              "condition: '%sstop/iteration.next:output'" % ('stage1.' if prog['template'] == 'mid-offset' else ''), 'components:']
+    lines += ['loopBindings:', '  val: %s:%s' % ((prog['carried_from'] + sfx) if prog['template'] != 'mid-offset'
+                                                 else 'stage1.mid' + sfx, m),
+              "condition: '%sstop%s/iteration.next:output'" % ('stage1.' if prog['template'] == 'mid-offset' else '', sfx),
+              'components:']
     for (name, st, refs, repl, agg) in body_components(prog):
         lines.append('- name: %s' % name)
         if st:
@@ -93,32 +151,52 @@ def render_loop(prog):
             wa.append('aggregate: true')
         if wa:
             lines.append('  workflowAttributes: {%s}' % ', '.join(wa))
-    dw = '\n'.join(lines) + '\n'
+    return '\n'.join(lines) + '\n'
+
+
+def render_package(prog):
+    """-> (main FlowIR text, {file name under conf/: DoWhile document}); fills o['ref'], o['stage'] of outside consumers"""
+    loops = loops_of(prog)
     main = ['variables:', '  default:', '    global:', '      targetLoops: 5', '      uv: default-uv', 'components:',
             '- stage: 0', '  name: GenerateInput', '  command: {executable: echo, arguments: "0 %(uv)s"}']
-    if prog['const_binding']:
+    if any(lp['const_binding'] for lp in loops):
         main += ['- stage: 0', '  name: Const', '  command: {executable: echo, arguments: "c"}']
-    for st in range(1, S):
+    for st in range(1, max(lp['import_stage'] for lp in loops)):
         main += ['- stage: %d' % st, '  name: Filler%d' % st, '  command: {executable: echo, arguments: "f"}']
-    main += ['- stage: %d' % S, '  $import: dowhile.yaml', '  name: %s' % prog['name'], '  bindings:',
-             '    val: stage0.GenerateInput:%s' % m]
-    if prog['const_binding']:
-        main += ['    const: stage0.Const:ref']
-    body_stage = {n: st for (n, st, _, _, _) in body_components(prog)}
-    for o in prog['outside']:
-        tgt_stage = S + body_stage[o['target']]
-        ref = 'stage%d.%s:%s' % (tgt_stage, o['target'], o['method'])
-        if o['method'] in ('output', 'loopoutput') and o['target'] == 'stop':
-            ref = 'stage%d.%s/iteration.next:%s' % (tgt_stage, o['target'], o['method'])
-        main += ['- stage: %d' % (tgt_stage + 1), '  name: %s' % o['name'],
-                 '  command: {executable: echo, arguments: "%s"}' % ref, '  references: ["%s"]' % ref]
-        o['ref'] = ref
-        o['stage'] = tgt_stage + 1
-    return '\n'.join(main) + '\n', dw
+    files = {}
+    for lp in loops:
+        S = lp['import_stage']
+        m = lp['method']
+        fname = lp.get('file') or 'dowhile.yaml'
+        files[fname] = render_dw(lp)
+        main += ['- stage: %d' % S, '  $import: %s' % fname, '  name: %s' % lp['name'], '  bindings:',
+                 '    val: stage0.GenerateInput:%s' % m]
+        if lp['const_binding']:
+            main += ['    const: stage0.Const:ref']
+    for lp in loops:
+        S = lp['import_stage']
+        body_stage = {n: st for (n, st, _, _, _) in body_components(lp)}
+        for o in lp['outside']:
+            tname = bn(lp, o['target'])
+            tgt_stage = S + body_stage[tname]
+            ref = 'stage%d.%s:%s' % (tgt_stage, tname, o['method'])
+            if o['method'] in ('output', 'loopoutput') and o['target'] == 'stop':
+                ref = 'stage%d.%s/iteration.next:%s' % (tgt_stage, tname, o['method'])
+            main += ['- stage: %d' % (tgt_stage + 1), '  name: %s' % o['name'],
+                     '  command: {executable: echo, arguments: "%s"}' % ref, '  references: ["%s"]' % ref]
+            o['ref'] = ref
+            o['stage'] = tgt_stage + 1
+    return '\n'.join(main) + '\n', files
+
+
+def render_loop(prog):
+    """single-loop packages: (main, text of conf/dowhile.yaml)"""
+    main, files = render_package(prog)
+    return main, files['dowhile.yaml']
 
 
 def expected_loop(prog, k):
-    """the reference unroller: node names, predecessor sets, placeholders, state after k further iterations"""
+    """the reference unroller for ONE loop: node names, predecessor sets, placeholders, state after k further iterations"""
     S = prog['import_stage']
     m = prog['method']
     body = body_components(prog)
@@ -134,7 +212,7 @@ def expected_loop(prog, k):
     nodes = {'stage0.GenerateInput': set()}
     if prog['const_binding']:
         nodes['stage0.Const'] = set()
-    carried = prog['carried_from']
+    carried = bn(prog, prog['carried_from'])
     for i in range(k + 1):
         for (name, st, refs, r, agg) in body:
             for idx, node in enumerate(inst(name, i)):
@@ -166,9 +244,17 @@ def expected_loop(prog, k):
             ref = 'stage%d.%s' % (S + st, name)
             placeholders[ref] = {'represents': set('stage%d.%d#%s' % (S + st, i, name) for i in range(k + 1)),
                                  'latest': 'stage%d.%d#%s' % (S + st, k, name)}
+    stop = bn(prog, 'stop')
     state = {'currentIteration': k,
-             'currentCondition': 'stage%d.%d#stop/iteration.next:output' % (S + body_stage['stop'], k)}
+             'currentCondition': 'stage%d.%d#%s/iteration.next:output' % (S + body_stage[stop], k, stop)}
     return nodes, placeholders, state
+
+
+def ks_of(prog, k):
+    """iteration counts per loop from an int (single loop) or a list"""
+    if isinstance(k, (list, tuple)):
+        return list(k)
+    return [k] + [0] * (len(loops_of(prog)) - 1)
 
 
 # ---------------------------------------------------------------------------------------------------
@@ -182,9 +268,9 @@ class Session:
 
 def new_instance(prog, root, variable_files=None, platform=None):
     from sim import runtime as R
-    main, dw = render_loop(prog)
-    exp = R.build_experiment(main, root, extra_files={'conf/dowhile.yaml': dw}, variable_files=variable_files,
-                             platform=platform)
+    main, files = render_package(prog)
+    exp = R.build_experiment(main, root, extra_files={'conf/%s' % f: t for f, t in files.items()},
+                             variable_files=variable_files, platform=platform)
     return exp
 
 
@@ -226,11 +312,11 @@ def observe_loop(exp, prog):
     for ref, d in wg._placeholders.items():
         ph[ref] = {'represents': set(d['represents']), 'latest': d['latest'], 'n_represents': len(d['represents'])}
     docs = wg._documents.get(F.FlowIR.LabelDoWhile, {})
-    state = None
+    state = {}
     for name in docs:
-        state = dict(docs[name].get('state') or {})
+        state[name] = dict(docs[name].get('state') or {})
     resolved = {}
-    for o in prog['outside']:
+    for o in [o for lp in loops_of(prog) for o in lp['outside']]:
         node = 'stage%d.%s' % (o['stage'], o['name'])
         try:
             spec = g.nodes[node]['componentSpecification']
@@ -248,39 +334,52 @@ def observe_loop(exp, prog):
 
 
 def expected_resolution(exp, prog, k):
+    """for ONE loop"""
     S = prog['import_stage']
     body_stage = {n: st for (n, st, _, _, _) in body_components(prog)}
     inst = exp.instanceDirectory.location
     out = {}
     for o in prog['outside']:
-        st = S + body_stage[o['target']]
+        tname = bn(prog, o['target'])
+        st = S + body_stage[tname]
 
         def wd(i):
-            return os.path.join(inst, 'stages', 'stage%d' % st, '%d#%s' % (i, o['target']))
+            return os.path.join(inst, 'stages', 'stage%d' % st, '%d#%s' % (i, tname))
 
         file_ref = 'iteration.next' if (o['method'] in ('output', 'loopoutput') and o['target'] == 'stop') else None
         if o['method'] == 'ref':
             out[o['name']] = [wd(k)]
         elif o['method'] == 'output':
-            out[o['name']] = ['True' if file_ref else 'stdout-of-stage%d.%d#%s' % (st, k, o['target'])]
+            out[o['name']] = ['True' if file_ref else 'stdout-of-stage%d.%d#%s' % (st, k, tname)]
         elif o['method'] == 'loopref':
             out[o['name']] = [' '.join(wd(i) for i in range(k + 1))]
         elif o['method'] == 'loopoutput':
             if file_ref:
                 out[o['name']] = [' '.join('True' for i in range(k + 1))]
             else:
-                out[o['name']] = [' '.join('stdout-of-stage%d.%d#%s' % (st, i, o['target']) for i in range(k + 1))]
+                out[o['name']] = [' '.join('stdout-of-stage%d.%d#%s' % (st, i, tname) for i in range(k + 1))]
     return out
 
 
 def judge_loop(exp, prog, k, viol, where, cnt):
     nodes, ph, state, resolved = observe_loop(exp, prog)
-    e_nodes, e_ph, e_state = expected_loop(prog, k)
+    loops = loops_of(prog)
+    ks = ks_of(prog, k)
+    e_nodes, e_ph, e_state, e_res = {}, {}, {}, {}
+    for lp, kk in zip(loops, ks):
+        n_, p_, s_ = expected_loop(lp, kk)
+        e_nodes.update(n_)
+        e_ph.update(p_)
+        e_state['stage%d.%s' % (lp['import_stage'], lp['name'])] = s_
+        e_res.update(expected_resolution(exp, lp, kk))
+    two = len(loops) > 1
 
     def V(sig, detail):
         if not any(v['sig'] == sig and v['property'] == 'C05' for v in viol):
             detail = dict(detail)
-            detail.update({'k': k, 'where': where, 'crosses_10': k >= 10})
+            detail.update({'k': k, 'where': where, 'crosses_10': max(ks) >= 10})
+            if two:
+                detail['second_loop'] = {'suffix': loops[1].get('suffix'), 'import_stage': loops[1]['import_stage']}
             viol.append({'property': 'C05', 'sig': sig, 'detail': detail})
 
     looped = {n for n in nodes if '#' in n}
@@ -302,18 +401,21 @@ def judge_loop(exp, prog, k, viol, where, cnt):
             V('placeholder:represents-differs', {'placeholder': ref, 'expected': len(e['represents']), 'got': p['n_represents']})
         if p['latest'] != e['latest']:
             V('placeholder:latest-is-not-numerically-highest-iteration', {'placeholder': ref, 'expected': e['latest'], 'got': p['latest']})
-    if state is None or state.get('currentIteration') != e_state['currentIteration']:
-        V('state:current-iteration-differs', {'expected': e_state, 'got': state})
-    elif state.get('currentCondition') != e_state['currentCondition']:
-        V('state:current-condition-differs', {'expected': e_state, 'got': state})
-    e_res = expected_resolution(exp, prog, k)
-    for o in prog['outside']:
+    for dname, es in e_state.items():
+        st = state.get(dname)
+        if st is None or st.get('currentIteration') != es['currentIteration']:
+            V('state:current-iteration-differs', {'document': dname, 'expected': es, 'got': st})
+        elif st.get('currentCondition') != es['currentCondition']:
+            V('state:current-condition-differs', {'document': dname, 'expected': es, 'got': st})
+    for o in [o for lp in loops for o in lp['outside']]:
         if resolved.get(o['name']) != e_res[o['name']]:
             V('resolve:%s-reference-from-outside-the-loop' % o['method'],
               {'consumer': o['name'], 'reference': o['ref'], 'expected': e_res[o['name']][0][-160:],
                'got': (resolved.get(o['name']) or ['?'])[0][-160:]})
     cnt['probe.loop_judgements'] = cnt.get('probe.loop_judgements', 0) + 1
-    if k >= 10:
+    if two:
+        cnt['probe.judged_with_two_documents'] = cnt.get('probe.judged_with_two_documents', 0) + 1
+    if max(ks) >= 10:
         cnt['probe.judged_at_k_ge_10'] = cnt.get('probe.judged_at_k_ge_10', 0) + 1
 
 
@@ -417,11 +519,13 @@ def run_loop_history(prog, root, viol, cnt, fixpoint_cycles=1):
     exp = new_instance(prog, root, variable_files=vfiles)
     path = exp.instanceDirectory.location
     prepare_iteration_dirs(exp, [n for n in exp.graph.nodes], iteration_of)
-    k = 0
-    judge_loop(exp, prog, 0, viol, 'after creation', cnt)
+    loops = loops_of(prog)
+    order = prog.get('order') if prog.get('second') else [0] * prog['k']
+    ks = [0] * len(loops)
+    judge_loop(exp, prog, list(ks), viol, 'after creation', cnt)
     steps = []
-    for it in range(0, prog['k'] + 1):
-        if it in prog['reloads']:
+    for pos in range(0, len(order) + 1):
+        if pos in prog['reloads']:
             # crash + restart: only the directory survives
             exp.validateExperiment(checkExecutables=True)  # same lifecycle state as the reloaded experiment
             before = snapshot_experiment(exp)
@@ -429,20 +533,23 @@ def run_loop_history(prog, root, viol, cnt, fixpoint_cycles=1):
             del exp
             exp = reload_instance(path)
             cnt['fault.crash_and_reload'] = cnt.get('fault.crash_and_reload', 0) + 1
-            judge_reload(before, bb, exp, viol, 'reload at iteration %d' % it, cnt)
+            judge_reload(before, bb, exp, viol, 'reload at step %d' % pos, cnt)
             for c in range(fixpoint_cycles - 1):
                 b2 = conf_bytes(exp)
                 s2 = snapshot_experiment(exp)
                 exp = reload_instance(path)
-                judge_reload(s2, b2, exp, viol, 'reload cycle %d at iteration %d' % (c + 2, it), cnt)
-            judge_loop(exp, prog, it, viol, 'after reload at iteration %d' % it, cnt)
-            steps.append('reload@%d' % it)
-        if it == prog['k']:
+                judge_reload(s2, b2, exp, viol, 'reload cycle %d at step %d' % (c + 2, pos), cnt)
+            judge_loop(exp, prog, list(ks), viol, 'after reload at step %d' % pos, cnt)
+            steps.append('reload@%d' % pos)
+        if pos == len(order):
             break
+        li = order[pos]
+        lp = loops[li]
         wg = exp.experimentGraph
         docs = wg._documents[F.FlowIR.LabelDoWhile]
-        name = sorted(docs)[0]
-        new = wg.instantiate_dowhile_next_iteration(docs[name]['document'], it + 1, True)
+        name = 'stage%d.%s' % (lp['import_stage'], lp['name'])
+        new = wg.instantiate_dowhile_next_iteration(docs[name]['document'], ks[li] + 1, True)
+        ks[li] += 1
         cnt['op.iterate'] = cnt.get('op.iterate', 0) + 1
         # the controller's part: jobs, working directories; the tasks' part: their outputs
         import experiment.model.data as D
@@ -453,8 +560,8 @@ def run_loop_history(prog, root, viol, cnt, fixpoint_cycles=1):
             job = D.Job.jobFromConfiguration(cid, wg, directory)
             exp.getStage(cid.stageIndex).add_job(job)
         prepare_iteration_dirs(exp, new, iteration_of)
-        judge_loop(exp, prog, it + 1, viol, 'after iteration %d' % (it + 1), cnt)
-        steps.append('iter%d' % (it + 1))
+        judge_loop(exp, prog, list(ks), viol, 'after iteration %s' % ks, cnt)
+        steps.append('iter%d.%d' % (li, ks[li]))
         if any(v['property'] == 'C05' for v in viol) and len(viol) >= 3:
             break
     return steps
